@@ -13,7 +13,7 @@ import sys
 
 sys.path.insert(0, os.path.dirname(os.path.abspath(__file__)))
 from pyexpr import (Tr, Untranslatable, find_def, find_assign,  # noqa: E402
-                    default_of)
+                    default_of, resolve_const)
 import skeleton  # noqa: E402
 
 REPO = os.environ.get('VERIF_REPO', '/repo')
@@ -108,6 +108,7 @@ class Gen:
         def dflt(rel, qual, arg, name):
             def go():
                 node = default_of(find_def(self.tree(rel), qual), arg)
+                node = resolve_const(self.tree(rel), node)
                 env[name] = self.const_int(name, node, {})
             self.item(name, go)
 
@@ -155,7 +156,8 @@ class Gen:
                      and ast.unparse(n.func) == 're.compile']
             if len(calls) != 1 or len(calls[0].args) != 1:
                 raise Untranslatable("_filtered_dir: expected one re.compile")
-            self.const_str('FILTERED_DIR_REGEX', calls[0].args[0])
+            self.const_str('FILTERED_DIR_REGEX',
+                           resolve_const(self.tree(s), calls[0].args[0]))
         self.item('FILTERED_DIR_REGEX', fdir)
 
         # ---- function bodies
